@@ -4,7 +4,7 @@
    zero-sized dimensions included (rank 0 too: one empty tuple). *)
 From Coq Require Import List Bool Arith ZArith Lia.
 Import ListNotations.
-From SL Require Import Model.Arr Model.ArrSpec Facts.ArrFacts.
+From SL Require Import Model.Arr Model.ArrSpec Facts.ArrFacts Facts.IterAdaptors.
 Local Open Scope nat_scope.
 
 (* The specification [lex dims] (ArrSpec.v) is characterised independently of its definition:
@@ -67,6 +67,39 @@ Print Assumptions keys_spec.
    (Model/Arr.v has no newtype wrapper), so the round trip is the identity by construction. *)
 
 (* non-vacuity: concrete enumerations, computed by the model *)
+(* ---- consumed through the Iterator methods an implementation may override ----
+   [it_nth], [it_count], [it_last], [it_fold], [it_step_by] are the standard library's default definitions (by
+   repeated next()) over the state-machine model; [after next k st] is the state after k calls of next().  An
+   override is correct exactly when it agrees with these.  For the MultiRange odometer: *)
+
+(* k calls of next() (= skip(k)): what is left is the lexicographic product from position k on *)
+Theorem multirange_skip : forall dims k,
+  drive (mr_next dims) (S (total dims)) (after (mr_next dims) k (mr_new dims)) = skipn k (lex dims).
+Proof. exact mr_skip. Qed.
+Print Assumptions multirange_skip.
+
+(* nth(k) returns the k-th tuple (None past the end) and leaves the tuples after it *)
+Theorem multirange_nth : forall dims k,
+  fst (it_nth (mr_next dims) k (mr_new dims)) = nth_error (lex dims) k /\
+  drive (mr_next dims) (S (total dims)) (snd (it_nth (mr_next dims) k (mr_new dims))) = skipn (S k) (lex dims).
+Proof. intros dims k. split; [apply mr_nth | apply mr_nth_rest]. Qed.
+Print Assumptions multirange_nth.
+
+(* count(), last() and fold after k calls of next() *)
+Theorem multirange_count_last_fold : forall dims k,
+  it_count (mr_next dims) (S (total dims)) (after (mr_next dims) k (mr_new dims)) = (total dims - k)%nat /\
+  it_last (mr_next dims) (S (total dims)) (after (mr_next dims) k (mr_new dims)) = last (map Some (skipn k (lex dims))) None /\
+  (forall (A : Type) (f : A -> list nat -> A) (a : A),
+     it_fold (mr_next dims) f a (S (total dims)) (after (mr_next dims) k (mr_new dims)) = fold_left f (skipn k (lex dims)) a).
+Proof. intros dims k. split; [apply mr_count|]. split; [apply mr_last|]. intros A f a. apply mr_fold. Qed.
+Print Assumptions multirange_count_last_fold.
+
+(* step_by(s): the tuples at positions 0, s, 2s, ... *)
+Theorem multirange_step_by : forall dims s,
+  it_step_by (mr_next dims) s (S (total dims)) (mr_new dims) = every s (S (total dims)) (lex dims).
+Proof. exact mr_step_by. Qed.
+Print Assumptions multirange_step_by.
+
 Example c18_nonvacuous :
   mr_indexes [2; 0; 3] = [] /\
   mr_indexes [2; 3] = [[0;0];[0;1];[0;2];[1;0];[1;1];[1;2]] /\
